@@ -60,6 +60,7 @@ def run(ctx):
 
     inputs = dwcheck.build_inputs(ctx, 40 if quick else 400, imports=True, links=False)
     dwcheck.compare_views(ctx, inputs, ("raw", "cooked"), ["off", "parent", "kids", "root", "unit"], bad, stats)
+    dwcheck.compare_archives(ctx, inputs, ("raw", "cooked"), ["off", "parent", "kids", "root", "unit"], bad, stats)
     files = [(n, p) for n, _, p in inputs] + [(os.path.basename(p), p) for p in dwforest.sample_files()]
     L = laws()
     nlaw = 0
